@@ -900,6 +900,197 @@ Proof.
   eapply lg_outer_spec; [| | | exact E]; [lia | lia | reflexivity].
 Qed.
 
+
+(* ---- LGMRES with always_reset: the result is independent of the incoming object state, the ring
+        buffer (start index, slot list) and the stored augmentation vectors included ---- *)
+Definition wf_cb (K : nat) (c : cbuf) : Prop :=
+  length (cb_buf c) <= K /\ (length (cb_buf c) < K -> cb_start c = 0) /\ (0 < K -> cb_start c < K).
+
+Lemma wf_cb_clear K : wf_cb K cb_clear.
+Proof. unfold wf_cb, cb_clear; simpl. repeat split; auto with arith. Qed.
+
+Lemma cb_get_in K (c : cbuf) i : wf_cb K c -> i < length (cb_buf c) -> In (cb_get K c i) (cb_buf c).
+Proof.
+  intros (H1 & H2 & H3) Hi. unfold cb_get. apply nth_In.
+  destruct (Nat.lt_ge_cases (length (cb_buf c)) K) as [Hl|Hl].
+  - rewrite (H2 Hl). simpl. rewrite Nat.mod_small by lia. exact Hi.
+  - assert (length (cb_buf c) = K) by lia. assert (0 < K) by lia.
+    pose proof (Nat.mod_upper_bound (cb_start c + i) K ltac:(lia)). lia.
+Qed.
+
+Lemma set_nth_nat_length l i v : length (set_nth_nat l i v) = length l.
+Proof. revert i; induction l as [|a l IH]; intros [|i]; simpl; auto. Qed.
+Lemma set_nth_nat_in l i v s : In s (set_nth_nat l i v) -> s = v \/ In s l.
+Proof.
+  revert i; induction l as [|a l IH]; intros [|i]; simpl; auto.
+  - intros [H|H]; auto.
+  - intros [H|H]; auto. destruct (IH i H); auto.
+Qed.
+
+Lemma cb_push_wf K (c : cbuf) v : 0 < K -> wf_cb K c -> wf_cb K (cb_push K c v).
+Proof.
+  intros HK (H1 & H2 & H3). unfold cb_push.
+  destruct (Nat.ltb (length (cb_buf c)) K) eqn:E.
+  - apply Nat.ltb_lt in E. unfold wf_cb; simpl. rewrite app_length; simpl. repeat split.
+    + lia.
+    + intros _. apply H2. exact E.
+    + intros _. rewrite (H2 E). exact HK.
+  - apply Nat.ltb_ge in E. unfold wf_cb; simpl. rewrite set_nth_nat_length. repeat split.
+    + exact H1.
+    + intro H. lia.
+    + intros _. apply Nat.mod_upper_bound. lia.
+Qed.
+
+Lemma cb_push_in K (c : cbuf) v s : In s (cb_buf (cb_push K c v)) -> s = v \/ In s (cb_buf c).
+Proof.
+  unfold cb_push. destruct (Nat.ltb (length (cb_buf c)) K); simpl.
+  - intro H. apply in_app_or in H as [H|[H|[]]]; auto.
+  - apply set_nth_nat_in.
+Qed.
+
+Definition agreeL (j : nat) (w1 w2 : gm_ws) : Prop :=
+  core j w1 w2 /\ g_r w1 = g_r w2 /\ forall k, k < j -> g_z w1 k = g_z w2 k.
+
+Lemma lg_body_agree (A P : vec -> vec) left Mt K (da db : nat -> vec) (outer : cbuf) j (w1 w2 : gm_ws) :
+  wf_cb K outer -> K <= Mt -> (forall s, In s (cb_buf outer) -> da s = db s) -> j < Mt ->
+  agreeL j w1 w2 ->
+  agreeL (SS j) (fst (lg_body A P left Mt K da outer w1 j)) (fst (lg_body A P left Mt K db outer w2 j)) /\
+  snd (lg_body A P left Mt K da outer w1 j) = snd (lg_body A P left Mt K db outer w2 j).
+Proof.
+  intros Hwf HK Hd Hj (C & _ & Z). unfold lg_body. cbv zeta.
+  assert (Ez : (if Nat.leb (Mt - length (cb_buf outer)) j
+                then da (cb_get K outer (j - (Mt - length (cb_buf outer)))) else g_v w1 j)
+             = (if Nat.leb (Mt - length (cb_buf outer)) j
+                then db (cb_get K outer (j - (Mt - length (cb_buf outer)))) else g_v w2 j)).
+  { destruct (Nat.leb (Mt - length (cb_buf outer)) j) eqn:E.
+    - apply Nat.leb_le in E. apply Hd, cb_get_in; [exact Hwf|].
+      destruct Hwf as (H1 & _). lia.
+    - destruct C as (Cv & _). apply Cv. auto. }
+  rewrite <- Ez.
+  set (z := if Nat.leb (Mt - length (cb_buf outer)) j
+            then da (cb_get K outer (j - (Mt - length (cb_buf outer)))) else g_v w1 j).
+  destruct (pspmv left A P z) as [vnew0 T].
+  match goal with |- agreeL _ (fst (arnoldi_tail ?a j vnew0)) (fst (arnoldi_tail ?b j vnew0)) /\ _ =>
+    assert (C' : core j a b) by exact C;
+    destruct (arnoldi_tail_core a b j vnew0 C') as (C1 & E & R1 & R2 & Z1 & Z2) end.
+  split; [|exact E]. split; [exact C1|]. rewrite R1, R2, Z1, Z2. cbn [g_r g_z]. split; [reflexivity|].
+  intros k Hk. destruct (Nat.eq_dec k j) as [->|Nk]; [rewrite !upd_eq; reflexivity|].
+  apply upd_same. apply Z. lia.
+Qed.
+
+Lemma gm_inner_agree_lt (R : nat -> gm_ws -> gm_ws -> Prop) (b1 b2 : gm_ws -> nat -> gm_ws * S) maxiter M eps :
+  (forall j w1 w2, j < M -> R j w1 w2 -> R (SS j) (fst (b1 w1 j)) (fst (b2 w2 j)) /\ snd (b1 w1 j) = snd (b2 w2 j)) ->
+  forall fuel w1 w2 j it, j < M -> R j w1 w2 ->
+  let r1 := gm_inner b1 maxiter M eps fuel w1 j it in
+  let r2 := gm_inner b2 maxiter M eps fuel w2 j it in
+  n_j r1 = n_j r2 /\ n_it r1 = n_it r2 /\ n_oof r1 = n_oof r2 /\ R (n_j r1) (n_ws r1) (n_ws r2).
+Proof.
+  intro Hb. induction fuel as [|k IH]; intros w1 w2 j it Hj HR; simpl;
+    destruct (Hb j w1 w2 Hj HR) as (R' & E);
+    destruct (b1 w1 j) as [w1' i1], (b2 w2 j) as [w2' i2]; simpl in R', E; subst i2.
+  - destruct (Nat.leb maxiter (SS it) || Nat.leb M (SS j) || negb (sltb eps i1)); simpl; auto.
+  - destruct (Nat.leb maxiter (SS it) || Nat.leb M (SS j) || negb (sltb eps i1)) eqn:Eb; simpl; auto.
+    apply IH; [|exact R'].
+    apply Bool.orb_false_iff in Eb as [Eb _]. apply Bool.orb_false_iff in Eb as [_ Eb].
+    apply Nat.leb_gt in Eb. exact Eb.
+Qed.
+
+Definition LInv (K : nat) (wa wb : lg_ws) : Prop :=
+  l_outer wa = l_outer wb /\ wf_cb K (l_outer wa) /\
+  forall s, In s (cb_buf (l_outer wa)) -> l_data wa s = l_data wb s.
+
+Lemma lg_cycle_agree (Hz : is_zero (@s0 S) = true) (A P : vec -> vec) prm eps norm_r (x : vec) (wa wb : lg_ws) it no :
+  1 <= p_M prm -> LInv (p_K prm) wa wb -> g_r (l_g wa) = g_r (l_g wb) ->
+  let ca := lg_cycle A P prm eps norm_r x wa it no in
+  let cb := lg_cycle A P prm eps norm_r x wb it no in
+  y_x ca = y_x cb /\ y_it ca = y_it cb /\ y_nouter ca = y_nouter cb /\ y_oof ca = y_oof cb /\
+  LInv (p_K prm) (y_ws ca) (y_ws cb).
+Proof.
+  intros HM (Eo & Hwf & Hd) Er. unfold lg_cycle. cbv zeta.
+  rewrite !(k_axpby_zero Hz), <- Er, <- Eo.
+  set (K := p_K prm) in *. set (Mt := (p_M prm + K)%nat).
+  set (outer := l_outer wa) in *.
+  assert (Hosz : length (cb_buf outer) <= K) by (destruct Hwf as (H & _); exact H).
+  match goal with |- context [gm_inner ?ba ?mx Mt ?e ?fu ?ga 0 it] =>
+    match goal with |- context [gm_inner ?bb mx Mt e fu ?gb 0 it] =>
+      lazymatch ga with gb => fail | _ => idtac end;
+      assert (G0 : agreeL 0 ga gb);
+      [| pose proof (gm_inner_agree_lt agreeL ba bb mx Mt e
+           (fun j w1 w2 Hj HR => lg_body_agree A P (p_left prm) Mt K (l_data wa) (l_data wb) outer j w1 w2 Hwf ltac:(unfold Mt; lia) Hd Hj HR)
+           fu ga gb 0 it ltac:(unfold Mt; lia) G0) as (Ej & Ei & Eoo & (C & Er' & Z));
+         set (ra := gm_inner ba mx Mt e fu ga 0 it) in *; set (rb := gm_inner bb mx Mt e fu gb 0 it) in * ]
+    end end.
+  { split; [|split; [reflexivity | intros k Hk; lia]].
+    unfold core; cbn [g_v g_cs g_sn g_s g_H]. repeat split; try reflexivity; try lia.
+    - intros k Hk. assert (k = 0) by lia. subst. rewrite !upd_eq. reflexivity.
+    - intros r c (Hc & _). lia. }
+  destruct C as (Cv & _ & Cs & CH).
+  rewrite <- Ej.
+  assert (Esv : forall m, backsub (g_H (n_ws ra)) (rev (seq 0 (n_j ra))) (g_s (n_ws ra)) m
+                        = backsub (g_H (n_ws rb)) (rev (seq 0 (n_j ra))) (g_s (n_ws rb)) m).
+  { intro m. apply (backsub_agree _ _ (n_j ra)); [exact CH | apply rev_seq_lt | exact Cs]. }
+  assert (Ecv : cv_of (backsub (g_H (n_ws ra)) (rev (seq 0 (n_j ra))) (g_s (n_ws ra))) (g_z (n_ws ra)) (n_j ra)
+              = cv_of (backsub (g_H (n_ws rb)) (rev (seq 0 (n_j ra))) (g_s (n_ws rb))) (g_z (n_ws rb)) (n_j ra)).
+  { apply cv_of_agree; [exact Esv | exact Z]. }
+  rewrite <- Ecv, <- Er'.
+  set (dx := k_lin_comb (cv_of (backsub (g_H (n_ws ra)) (rev (seq 0 (n_j ra))) (g_s (n_ws ra))) (g_z (n_ws ra)) (n_j ra)) s0 (g_r (n_ws ra))).
+  assert (Eleb : Nat.leb (Mt - length (cb_buf outer)) 0 = false) by (apply Nat.leb_gt; unfold Mt; lia).
+  rewrite Eleb.
+  destruct (p_left prm).
+  - destruct (Nat.ltb 0 K && negb (is_zero (norm_b dx))) eqn:Est; cbn [y_x y_it y_nouter y_oof y_ws];
+      repeat split; auto; unfold LInv; cbn [l_outer l_data].
+    + repeat split; auto.
+      * apply cb_push_wf; [|exact Hwf]. apply Bool.andb_true_iff in Est as [Est _]. apply Nat.ltb_lt in Est. exact Est.
+      * intros s Hs. apply cb_push_in in Hs as [->|Hs]; [rewrite !upd_eq; reflexivity|].
+        apply upd_same. apply Hd. exact Hs.
+    + repeat split; auto.
+  - destruct (Nat.ltb 0 K && negb (is_zero (norm_b dx))) eqn:Est; cbn [y_x y_it y_nouter y_oof y_ws];
+      repeat split; auto; unfold LInv; cbn [l_outer l_data].
+    + repeat split; auto.
+      * apply cb_push_wf; [|exact Hwf]. apply Bool.andb_true_iff in Est as [Est _]. apply Nat.ltb_lt in Est. exact Est.
+      * intros s Hs. apply cb_push_in in Hs as [->|Hs]; [rewrite !upd_eq; reflexivity|].
+        apply upd_same. apply Hd. exact Hs.
+    + repeat split; auto.
+Qed.
+
+Opaque lg_cycle.
+Lemma lg_outer_agree (Hz : is_zero (@s0 S) = true) (A P : vec -> vec) prm (f : vec) eps nr fuel :
+  1 <= p_M prm -> forall x (wa wb : lg_ws) it no oof, LInv (p_K prm) wa wb ->
+  fst (lg_outer A P prm f eps nr fuel x wa it no oof) = fst (lg_outer A P prm f eps nr fuel x wb it no oof).
+Proof.
+  intro HM. induction fuel as [|k IH]; intros x wa wb it no oof HI; simpl.
+  - destruct (p_left prm); simpl; destruct (sltb _ eps || Nat.leb (p_maxiter prm) it); reflexivity.
+  - destruct (p_left prm) eqn:El; simpl.
+    + destruct (sltb _ eps || Nat.leb (p_maxiter prm) it); [reflexivity|].
+      match goal with |- context [lg_cycle A P prm eps ?nrm x ?w0a it no] =>
+        match goal with |- context [lg_cycle A P prm eps nrm x ?w0b it no] =>
+          lazymatch w0a with w0b => fail | _ => idtac end;
+          destruct (lg_cycle_agree Hz A P prm eps nrm x w0a w0b it no HM HI eq_refl) as (E1 & E2 & E3 & E4 & E5);
+          set (ca := lg_cycle A P prm eps nrm x w0a it no) in *; set (cb := lg_cycle A P prm eps nrm x w0b it no) in * end end.
+      rewrite <- E1, <- E2, <- E3, <- E4. apply IH. exact E5.
+    + destruct (sltb _ eps || Nat.leb (p_maxiter prm) it); [reflexivity|].
+      match goal with |- context [lg_cycle A P prm eps ?nrm x ?w0a it no] =>
+        match goal with |- context [lg_cycle A P prm eps nrm x ?w0b it no] =>
+          lazymatch w0a with w0b => fail | _ => idtac end;
+          destruct (lg_cycle_agree Hz A P prm eps nrm x w0a w0b it no HM HI eq_refl) as (E1 & E2 & E3 & E4 & E5);
+          set (ca := lg_cycle A P prm eps nrm x w0a it no) in *; set (cb := lg_cycle A P prm eps nrm x w0b it no) in * end end.
+      rewrite <- E1, <- E2, <- E3, <- E4. apply IH. exact E5.
+Qed.
+Transparent lg_cycle.
+
+Theorem lgmres_reset_state_independent (Hz : is_zero (@s0 S) = true) (A P : vec -> vec) prm (f x0 : vec) (st1 st2 : lg_ws) :
+  p_areset prm = true -> 1 <= p_M prm ->
+  fst (lgmres A P prm f x0 st1) = fst (lgmres A P prm f x0 st2).
+Proof.
+  intros Ha HM. unfold lgmres. rewrite Ha.
+  destruct (k_prologue norm_b prm f) as [nr|nr]; [reflexivity|].
+  match goal with |- fst (let '(_, _) := lg_outer A P prm f ?e nr ?fu x0 ?sa 0 0 false in _) = fst (let '(_, _) := lg_outer _ _ _ _ _ _ _ _ ?sb 0 0 false in _) =>
+    assert (HI : LInv (p_K prm) sa sb) by (unfold LInv; cbn [l_outer l_data]; repeat split; [apply wf_cb_clear | intros s []]);
+    pose proof (lg_outer_agree Hz A P prm f e nr fu HM x0 sa sb 0 0 false HI) as E;
+    destruct (lg_outer A P prm f e nr fu x0 sa 0 0 false) as [r1 w1], (lg_outer A P prm f e nr fu x0 sb 0 0 false) as [r2 w2] end.
+  simpl in E. subst. reflexivity.
+Qed.
+
 Theorem lgmres_zero_rhs (A P : vec -> vec) prm (f x0 : vec) st :
   sltb (norm_b f) eps1 = true -> p_ns prm = false ->
   fst (lgmres A P prm f x0 st) = KOk (mkRes 0 (norm_b f) (k_clear x0) false).
